@@ -26,7 +26,9 @@ def mkcopy(k):
     d = f'{SCR}/w{k}'
     if os.path.exists(d): shutil.rmtree(d)
     os.makedirs(SCR, exist_ok=True)
-    subprocess.run(['rsync', '-a', '--exclude', '.git', '/repo/', d + '/'], check=True)
+    # the committed tree, not the working tree (which other tools may be patching)
+    os.makedirs(d)
+    subprocess.run(f'git -C /repo archive HEAD | tar x -C {d}', shell=True, check=True)
     return d
 
 def apply(d, m):
@@ -115,7 +117,7 @@ def phaseB(rows, out, workers):
                 rc, o = sh(f'/verif/bin/govc check {p} --repo {d} --verif {v}', '/verif', 900, env)
                 ran.append(p)
                 if rc == 1 and 'VIOLATION property=' in o:
-                    lines = [l.strip()[:260] for l in o.splitlines() if l.strip().startswith('failed obligation')]
+                    lines = [l.strip()[:260] for l in o.splitlines() if l.strip().startswith('failed obligation') or l.strip().startswith('bounded check')]
                     det.append({'prop': p, 'obligations': lines[:3]})
                     if not full: break
                 elif rc != 0:
